@@ -15,7 +15,15 @@ func TestEnum_Outcomes(t *testing.T) { PartEnum.RunCases(t, EnumCases(4, 3), tru
 // TestProp_Random samples longer lists, Combine trees and other panic values.
 func TestProp_Random(t *testing.T) { PartRandom.Run(t) }
 
+// TestProp_SameDB hands one *gorm.DB to several Transact calls in a row: a small complete family (a call that does
+// not commit, then calls that must), then drawn sequences.
+func TestProp_SameDB(t *testing.T) {
+	PartSameDB.RunCases(t, EnumSeqCases(), false)
+	PartSameDB.Run(t)
+}
+
 func TestReplay(t *testing.T) {
 	PartEnum.Replay(t, 1)
 	PartRandom.Replay(t, 1)
+	PartSameDB.Replay(t, 1)
 }
